@@ -79,11 +79,54 @@ _mk("C10",
     extra_tb=[TB_FLOAT, "strconv float text / encoding/json text (oracles answered by the harness)"], exhaustive=True)
 
 _mk("C11",
-    ["Platypus.Model.Eval"],
+    ["Platypus.Properties.C11", "Platypus.Properties.C10"],
     rule="matrix: 20 subjects (absent; variable of every type; field of every type incl. 2^53+1, max int64, numeric/JSON/bad-JSON/bad-URL strings; tag; variable shadowing a field) "
          "x ~100 call shapes of add_key/get_key/set_tag/drop_key/rename/cast/set_measurement/len/load_json/strfmt/printf/trim/uppercase/replace/url_decode "
          "(identifier, string literal, attribute expression, `_`, nested expressions, optional arguments, failing arguments); engines answered by the harness; strict",
-    technique="Lean 4 model of the builtins' plumbing with engines as oracles + builtin x shape x subject matrix correspondence (theorems: see C10 for the point, C11 frame theorems pending)",
+    technique="Lean 4 contract and frame theorems for the builtins' plumbing (engines as oracles) + builtin x shape x subject matrix correspondence",
     level_text="The model of each builtin (subject lookup, stringification, engine call, destination write, return register) is compared with the implementation over the full builtin x argument-shape x subject matrix.",
     level_note="Engines (strconv, encoding/json, fmt.Sprintf, regexp, net/url, strings, spf13/cast string parsing) are oracles answered by calling the library directly.",
     extra_tb=[TB_FLOAT, "strconv/encoding/json/fmt/regexp/net/url/strings/spf13-cast (oracles)"], exhaustive=True)
+
+_mk("C12",
+    ["Platypus.Model.Check"],
+    rule="grok: 8 messages x 8 subjects (message, `_`, tag, int/float field, absent, variable, literal) x 11 patterns (typed captures int/float/str/bool, user pattern, unknown pattern, capture named like the subject) x trim flag (sampled quick / all thorough); "
+         "19 pattern-scope programs (definition in outer/inner/sibling/loop blocks, shadowing, definition after use, nested references, bad definitions); default_time: 16 timestamps (every house layout, dateparse layouts, unparsable, numeric) x 10 zones (none, +h, -h:mm, IANA, abbreviations, invalid) x 2 subjects; "
+         "datetime: subject x precision x format; xml: 5 documents x 7 XPath x 3 destination forms; sql_cover; strict, engines answered by the harness",
+    technique="Lean 4 model of the extraction builtins' plumbing and of load-time pattern scoping (check pass) with the pattern/XPath/time/SQL engines as oracles + matrix correspondence",
+    level_text="The model decides which key is read, how the subject is stringified, in which scope a pattern name resolves (the harness compiles against exactly the definitions the model says are visible), "
+               "where and with which type each extracted value lands and what happens on failure; compared with the implementation over the matrix.",
+    level_note="What the engines extract (grok, xmlquery, dateparse + zone table via funcs.TimestampHandle/DateFormatHandle, obfuscate) is theirs: oracles. Partial by nature.",
+    extra_tb=[TB_FLOAT, "grok, xmlquery, dateparse/time zone table (funcs.TimestampHandle), funcs.DateFormatHandle, obfuscate (oracles)"], exhaustive=False)
+
+_mk("C03",
+    ["Platypus.Properties.C03", "Platypus.Properties.C02Facts"],
+    rule="random grammar-directed control-flow programs (typed generator, mostly valid): nested if/elif/else over all truthiness classes, three-clause for with each clause optional, "
+         "for-in over list/string/map/point values, break/continue at any depth, assignments and compound assignments to new/outer/shadowing names, probes as the only effects; "
+         "map iteration order is existential (all orders of up to 10 binary / 4 six-way iterations tried); every case also self-checks the refinement statement (semStmts = abs(runStmts)) on its top-level block; strict",
+    technique="Lean 4 refinement theorem: the implementation's three-flag statement machine equals a structured outcome semantics (break/continue consumed by the innermost loop, scopes popped, nothing after exit) for all shaped programs, states and fuel, generic in the expression evaluator + truthiness table regenerated from source + random program correspondence",
+    level_text="Kernel-checked refinement of the flag machine (RunStmts/RunIfElseStmt/RunForStmt/RunForInStmt, break/continue/exit flags, scope push/pop, signal polls) to an outcome semantics "
+               "in which the control-flow clauses of the property hold by construction; corollaries: break/continue never escape the innermost loop, exit absorbs blocks and loops. Tied to runtime.go by generated programs.",
+    level_note="The theorem is generic in the expression evaluator under the frame hypothesis EvFrame (expressions do not touch break/continue flags); programs are grammar-shaped (checked on every parsed tree by construction of the dump).",
+    extra_tb=[TB_FLOAT])
+
+_mk("C13",
+    ["Platypus.Properties.C13"],
+    rule="call trees a.p -> b.p -> c.p from a template with 10 statement positions per script (top level, branch, loop body, for-init clause, for-loop clause, after use) x 6 injections "
+         "(exit(), run-time error, variable write, alias write, extra use(), drop of the shared key) at one position (exhaustive) and at two positions in different scripts (random); "
+         "random three-script trees from the program generator with exit/use; same-named variables and point keys on both sides; strict",
+    technique="Lean 4 theorems about use()/exit() (fresh callee task on the shared world, caller task restored, error chain appended, exit absorbs blocks/loops) + exhaustive injection correspondence",
+    level_text="Kernel-checked: use() runs the callee with a fresh task on the caller's world and restores the caller's task exactly (variables isolated both ways, callee exit() does not end the caller), "
+               "a callee error aborts the caller with the call site appended, and after exit() a script starts no statement. Tied to fn_use.go/fn_exit.go/runtime.go by the injection matrix.",
+    level_note="Statement granularity: effects later in the *same* statement as exit() still happen (e.g. `x = [exit(), p(1)]`); the property speaks of later statements.",
+    extra_tb=[TB_FLOAT])
+
+_mk("C14",
+    ["Platypus.Properties.C14"],
+    rule="12 endless/nested empty-bodied loop programs (incl. inside a callee) and N random loop-bearing two-script programs x every poll index k = 1..min(polls of the uninterrupted run, 40 quick / 200 thorough): "
+         "each interrupted run is compared with the model and must end ok/err (no timeout), and its probe trace and output must be a prefix of the uninterrupted run's (checked on the implementation's own outputs); strict",
+    technique="Lean 4 theorems (poll semantics, exit absorbs blocks and loops for every expression evaluator) + every-poll-index correspondence + prefix check of the implementation's own traces",
+    level_text="Kernel-checked: a poll that reports true sets the exit flag; from then on no block starts a statement and every three-clause loop ends at its head, nothing polls again in that task. "
+               "The effects-prefix clause is decided on the implementation's outputs for every poll index of every generated program (not a theorem: partial).",
+    level_note="Partial: effects_prefix is not proved in Lean (use() nested inside a larger expression lets the rest of that expression run after the callee observed the signal: known finding); v2 is covered by C18's machinery.",
+    extra_tb=[TB_FLOAT])
